@@ -713,7 +713,8 @@ fn phases() -> Vec<Phase> {
     v.push(Phase { name: "connect-mid-head".into(), before: b"HTTP/1.1 200 Connec".to_vec(), drip: false, timeout_ms: Some(600), read_timeout_ms: 20_000, upload: false, via_connect: true, hops: 0, hop_delay_ms: 0 });
     v.push(Phase { name: "connect-mid-head:drip".into(), before: b"HTTP/1.1 200 Connec".to_vec(), drip: true, timeout_ms: Some(600), read_timeout_ms: 20_000, upload: false, via_connect: true, hops: 0, hop_delay_ms: 0 });
     v.push(Phase { name: "connect-refusal-body:drip".into(), before: b"HTTP/1.1 403 No\r\n\r\nxx".to_vec(), drip: true, timeout_ms: Some(600), read_timeout_ms: 20_000, upload: false, via_connect: true, hops: 0, hop_delay_ms: 0 });
-    v.push(Phase { name: "redirect-chain-slow-hops".into(), before: vec![], drip: false, timeout_ms: Some(600), read_timeout_ms: 20_000, upload: false, via_connect: false, hops: 4, hop_delay_ms: 240 });
+    // each hop answers well within T, together they take 8 x T: only a deadline that spans the hops ends this in time
+    v.push(Phase { name: "redirect-chain-slow-hops".into(), before: vec![], drip: false, timeout_ms: Some(600), read_timeout_ms: 20_000, upload: false, via_connect: false, hops: 12, hop_delay_ms: 400 });
     v
 }
 
@@ -763,7 +764,7 @@ fn run_phase(p: &Phase) -> (Duration, String, Option<(String, String)>) {
     let res = guarded(move || -> Result<String, String> {
         let url = if p3.via_connect { "https://origin.invalid/x".to_string() } else { format!("http://127.0.0.1:{port}/x") };
         let mut rb = if p3.upload { attohttpc::post(&url) } else { attohttpc::get(&url) };
-        rb = rb.read_timeout(Duration::from_millis(p3.read_timeout_ms)).connect_timeout(Duration::from_secs(5));
+        rb = rb.read_timeout(Duration::from_millis(p3.read_timeout_ms)).connect_timeout(Duration::from_secs(5)).max_redirections(40);
         if let Some(t) = p3.timeout_ms {
             rb = rb.timeout(Duration::from_millis(t));
         }
